@@ -5,8 +5,9 @@ import numpy as np
 
 from rv import detmodel as D
 from rv import romodel as R
+from rv import dromodel as DR
 
-HAS_DRO = False
+HAS_DRO = True
 
 
 def gen(rng, tier, kinds=None, ints=True, outcomes=('optimal',)):
@@ -21,6 +22,9 @@ def gen(rng, tier, kinds=None, ints=True, outcomes=('optimal',)):
         cones = ['LQ', 'Q', 'LQX', 'X'][int(rng.integers(4))]
         spec = D.gen(rng, tier, cones=cones, ints=ints and rng.random() < 0.2)
         spec['outcome'] = 'optimal'
+    elif kind == 'dro':
+        spec = DR.gen(rng, tier)
+        spec['outcome'] = 'optimal'
     else:
         spec = R.gen(rng, tier)
         spec['outcome'] = 'optimal'
@@ -30,4 +34,6 @@ def gen(rng, tier, kinds=None, ints=True, outcomes=('optimal',)):
 def build(src, variant=None):
     if src['kind'] in ('lp', 'milp', 'conic'):
         return D.build(src['spec'], variant)
+    if src['kind'] == 'dro':
+        return DR.build(src['spec'], variant=variant)
     return R.build(src['spec'], variant=variant)
